@@ -49,13 +49,22 @@ func StructFieldsOf(prog *ssa.Program) map[string][][2]string {
 				continue
 			}
 			named, ok := tm.Type().(*types.Named)
+			declared := types.Object(nil)
+			if ok {
+				declared = named.Obj()
+			}
+			if inst := instOfAliasMember(tm); inst != nil {
+				// `type X = G[T]`: X is the instantiated type itself, listed under the name it is declared with
+				// (its fields and methods are those of the instance, type arguments substituted)
+				named, declared, ok = inst, tm.Object(), true
+			}
 			if !ok {
 				continue
 			}
-			if strings.HasSuffix(prog.Fset.Position(named.Obj().Pos()).Filename, "_test.go") {
+			if strings.HasSuffix(prog.Fset.Position(declared.Pos()).Filename, "_test.go") {
 				continue
 			}
-			key := sp.Pkg.Path() + "." + named.Obj().Name()
+			key := sp.Pkg.Path() + "." + declared.Name()
 			if st, ok := named.Underlying().(*types.Struct); ok {
 				for i := 0; i < st.NumFields(); i++ {
 					out[key] = append(out[key], [2]string{st.Field(i).Name(), types.TypeString(st.Field(i).Type(), nil)})
@@ -83,6 +92,129 @@ func StructFieldsOf(prog *ssa.Program) map[string][][2]string {
 
 // TypeAlias maps the present full name of a struct type recognised as renamed to its baseline name.
 var TypeAlias = map[string]string{}
+
+// InstAlias maps an instantiated generic type of the repository (types.TypeString with full package paths, e.g.
+// "p.agentsMap[*p.ExternalAgent]") to the full name of the Go alias declaration `type X = G[T]` that names it, when
+// exactly one such declaration exists. By the language an alias and the type it denotes are one type: the methods
+// and fields of the instance ARE the methods and fields of X, so the instance is seen under the declared name X.
+// (A generic type the pinned tree itself has keeps its own name.)
+var InstAlias = map[string]string{}
+
+// instOfAliasMember: the instantiated generic named type of the repository that the type member tm is declared an
+// alias of, or nil.
+func instOfAliasMember(tm *ssa.Type) *types.Named {
+	tn, ok := tm.Object().(*types.TypeName)
+	if !ok || !tn.IsAlias() || tn.Pkg() == nil {
+		return nil
+	}
+	n, ok := types.Unalias(tn.Type()).(*types.Named)
+	if !ok || n.TypeArgs().Len() == 0 || n.Obj().Pkg() == nil || !strings.HasPrefix(n.Obj().Pkg().Path(), ModulePath) {
+		return nil
+	}
+	if n.Obj() == types.Object(tn) {
+		return nil
+	}
+	return n
+}
+
+func instAliases(prog *ssa.Program) []string {
+	base := map[string]bool{}
+	for _, l := range strings.Split(baselineFields, "\n") {
+		parts := strings.Split(strings.TrimSpace(l), "\t")
+		if len(parts) == 3 && !strings.HasPrefix(l, "#") {
+			base[parts[0]] = true
+		}
+	}
+	by := map[string][]string{}
+	for _, sp := range prog.AllPackages() {
+		if sp.Pkg == nil || !strings.HasPrefix(sp.Pkg.Path(), ModulePath) {
+			continue
+		}
+		for _, mem := range sp.Members {
+			tm, ok := mem.(*ssa.Type)
+			if !ok {
+				continue
+			}
+			inst := instOfAliasMember(tm)
+			if inst == nil || strings.HasSuffix(prog.Fset.Position(tm.Object().Pos()).Filename, "_test.go") {
+				continue
+			}
+			if base[inst.Obj().Pkg().Path()+"."+inst.Obj().Name()] {
+				continue
+			}
+			k := types.TypeString(inst, nil)
+			by[k] = append(by[k], sp.Pkg.Path()+"."+tm.Object().Name())
+		}
+	}
+	var notes []string
+	for k, names := range by {
+		if len(names) == 1 {
+			InstAlias[k] = names[0]
+			notes = append(notes, k+": seen under its declared alias name "+names[0])
+		}
+	}
+	sort.Strings(notes)
+	return notes
+}
+
+// CanonTypeName is the full name (import path + "." + name) under which the rules see a named type: an instance of
+// a generic type under its declared alias (InstAlias), a struct recognised as renamed under its pinned name
+// (TypeAlias), any other type under its own name (instances without their type arguments).
+func CanonTypeName(n *types.Named) string {
+	if n == nil {
+		return ""
+	}
+	obj := n.Obj()
+	if obj.Pkg() == nil {
+		return obj.Name()
+	}
+	if len(InstAlias) > 0 && n.TypeArgs().Len() > 0 {
+		if a, ok := InstAlias[types.TypeString(n, nil)]; ok {
+			return a
+		}
+	}
+	full := obj.Pkg().Path() + "." + obj.Name()
+	if a, ok := TypeAlias[full]; ok {
+		return a
+	}
+	return full
+}
+
+// CanonTypeString is t.String() with every instantiated generic type that has a declared alias written by that name.
+func CanonTypeString(t types.Type) string {
+	s := t.String()
+	if len(InstAlias) == 0 || !strings.Contains(s, "[") {
+		return s
+	}
+	keys := make([]string, 0, len(InstAlias))
+	for k := range InstAlias {
+		keys = append(keys, k)
+	}
+	sort.Slice(keys, func(i, j int) bool {
+		return len(keys[i]) > len(keys[j]) || len(keys[i]) == len(keys[j]) && keys[i] < keys[j]
+	})
+	for _, k := range keys {
+		s = strings.ReplaceAll(s, k, InstAlias[k])
+	}
+	return s
+}
+
+// AliasNamedRecv reports whether fn (or the function it is nested in) is a method of an instantiated generic type
+// that is seen under its declared alias name: such a method is analysed as the instance it is, not as its origin.
+func AliasNamedRecv(fn *ssa.Function) bool {
+	for fn != nil && fn.Parent() != nil {
+		fn = fn.Parent()
+	}
+	if fn == nil || len(InstAlias) == 0 || fn.Signature.Recv() == nil {
+		return false
+	}
+	n := namedOfType(fn.Signature.Recv().Type())
+	if n == nil || n.TypeArgs().Len() == 0 {
+		return false
+	}
+	_, ok := InstAlias[types.TypeString(n, nil)]
+	return ok
+}
 
 // typeAliases recognises renamed struct types: a baseline struct that is gone and exactly one new struct of the
 // same package with the same field list (names and types, types compared after substituting the candidate name).
@@ -204,6 +336,11 @@ func fullTypeName(n *types.Named) string {
 	if n == nil || n.Obj().Pkg() == nil {
 		return ""
 	}
+	if len(InstAlias) > 0 && n.TypeArgs().Len() > 0 {
+		if a, ok := InstAlias[types.TypeString(n, nil)]; ok {
+			return a
+		}
+	}
 	return n.Obj().Pkg().Path() + "." + n.Obj().Name()
 }
 
@@ -249,6 +386,15 @@ func InBaseline(fn *ssa.Function) bool { return baselineSet[canonName(fn)] }
 func canonName(fn *ssa.Function) string {
 	if a, ok := FuncAlias[fn]; ok {
 		return a
+	}
+	if fn.Parent() == nil && AliasNamedRecv(fn) && fn.Object() != nil {
+		// method of an instantiated generic type that has a declared alias name: (*p.X).M
+		recv := fn.Signature.Recv().Type()
+		star := ""
+		if _, isPtr := recv.(*types.Pointer); isPtr {
+			star = "*"
+		}
+		return "(" + star + InstAlias[types.TypeString(namedOfType(recv), nil)] + ")." + fn.Object().Name()
 	}
 	n := fn.String()
 	for nw, old := range TypeAlias {
@@ -483,7 +629,15 @@ func TopLevelSourceFuncs(prog *ssa.Program) []*ssa.Function {
 // normalise brings the program into the analysis normal form, in place.
 func normalise(prog *ssa.Program) (map[*ssa.Function]bool, *ssa.VerifNorm, []string, error) {
 	fns := TopLevelSourceFuncs(prog)
-	renames := typeAliases(prog)
+	renames := instAliases(prog)
+	for _, fn := range fns {
+		// a method of an instance seen under its alias name carries the plain method name (go/ssa appends the type
+		// arguments): (*p.G[T]).M[T] is X's method M
+		if AliasNamedRecv(fn) && fn.Object() != nil {
+			ssa.VerifRename(fn, fn.Object().Name())
+		}
+	}
+	renames = append(renames, typeAliases(prog)...)
 	renames = append(renames, fieldAliases(prog)...)
 	glueStructs(prog)
 	wrappers := promotionWrappers(prog)
@@ -656,7 +810,7 @@ func normalise(prog *ssa.Program) (map[*ssa.Function]bool, *ssa.VerifNorm, []str
 				}
 				if syn := e.Caller.Func.Synthetic; strings.HasPrefix(syn, "bound method wrapper for ") && glue[fn] {
 					boundOf[e.Caller.Func] = fn
-				} else if syn != "" && !PromoWrapper[e.Caller.Func] {
+				} else if syn != "" && !PromoWrapper[e.Caller.Func] && !(strings.HasPrefix(syn, "instance of ") && e.Caller.Func.Syntax() != nil) {
 					// a pointer-receiver/promotion wrapper that nothing calls is no use of the method;
 					// a bound-method closure or thunk means the method's value is taken
 					if strings.HasPrefix(syn, "wrapper ") && len(e.Caller.In) == 0 {
@@ -848,7 +1002,7 @@ func normalise(prog *ssa.Program) (map[*ssa.Function]bool, *ssa.VerifNorm, []str
 	norm.ReadOnlyTable = func(g *ssa.Global) bool { return roTable[g] }
 	norm.IsGlueStruct = func(t types.Type) bool {
 		n, ok := t.(*types.Named)
-		return ok && n.Obj().Pkg() != nil && GlueStruct[n.Obj().Pkg().Path()+"."+n.Obj().Name()]
+		return ok && n.Obj().Pkg() != nil && GlueStruct[fullTypeName(n)]
 	}
 	for _, fn := range fns {
 		if absorbable[fn] {
